@@ -641,8 +641,8 @@ func genTypes(body []byte) *core.Verdict {
 			for k := 0; k < nmem; k++ {
 				if rng.Intn(2) == 0 {
 					own.Members = append(own.Members, qn{N: simple[k]})
-				} else if r := pickRef(sc, after); !usedN[r.N] && r.N != "string" {
-					usedN[r.N] = true
+				} else if r := pickRef(sc, after); !usedN[r.String()] && r.N != "string" {
+					usedN[r.String()] = true // (t and i0:t may both be members: same name, different typedefs)
 					own.Members = append(own.Members, r)
 				}
 			}
